@@ -42,6 +42,14 @@ REQUIRED_COUNTERS = {"quick": ["unify_pairs", "unify_triples", "presentations_co
 SHARD_TIMEOUT = {"quick": 600, "thorough": 3000}
 
 
+def _last_json(stdout):
+    """The child prints its result on a marked last line (anything the code under test prints comes before)."""
+    for ln in reversed(stdout.splitlines()):
+        if ln.startswith("VFJSON:"):
+            return json.loads(ln[7:])
+    raise ValueError("child produced no result line")
+
+
 def plan(tier, seed):
     sh = [{"kind": "algebra"}]
     n = 16
@@ -429,7 +437,7 @@ def hashseed_tables(progs, seeds):
         if p.returncode != 0:
             out[s] = None
             continue
-        out[s] = json.loads(p.stdout)
+        out[s] = _last_json(p.stdout)
     return out
 
 
@@ -502,4 +510,4 @@ if __name__ == "__main__":
         except CaseTimeout:
             r = ("timeout", "", 0)
         out.append(r)
-    sys.stdout.write(json.dumps(out))
+    sys.stdout.write("\nVFJSON:" + json.dumps(out) + "\n")
